@@ -147,7 +147,7 @@ class C09(HistoryCheck):
                   "durability beyond synchronous=FULL/journal settings is outside any in-process technique (DESIGN section 3).")
     technique = "Hypothesis-generated histories + invariant monitor at every outbound frame (independent reader vs. server connection, in_transaction, PRAGMAs)"
     assumptions = ["a crash right after a frame leaves exactly what an independent reader sees at that moment"]
-    quick = dict(examples=1200, max_ops=40, workers=8)
+    quick = dict(examples=2400, max_ops=40, workers=8)
     thorough = dict(examples=60000, max_ops=100, workers=16)
 
     def make_observer(self, world, cfg):
